@@ -250,6 +250,47 @@ def task_pipe(a, env):
     return r
 
 
+def reuse_case(group):
+    """the same bytearray tag object (and message) passed three times"""
+    HC = _hc()
+    cfg = _cfg(group)
+    f = HC.hash_to_G1 if group == "E1" else HC.hash_to_G2
+    msg, dst = bytearray(b"abc"), bytearray(h2c.DST_G2)
+    m0, d0 = bytes(msg), bytes(dst)
+    exp = h2c.hash_to_curve("G1" if group == "E1" else "G2", m0, d0)
+    out = []
+    for step in range(3):
+        try:
+            got = lib.opt_norm(cfg, f(msg, dst, hashlib.sha256))
+        except Exception as e:  # noqa: BLE001
+            got = "raise " + type(e).__name__
+        if bytes(msg) != m0 or bytes(dst) != d0:
+            got = "arguments mutated"
+        out.append((step, exp, got))
+    return out
+
+
+def task_reuse(a, env):
+    r = R("hash_to_curve:bytearray-arguments-reused")
+    for group in ("E2", "E1"):
+        for step, exp, got in reuse_case(group):
+            r.ev += 1
+            r.dk.add((group, step))
+            if exp != got:
+                r.viol("C10:%s:hash_to_curve:bytearray-reuse" % ("G1" if group == "E1" else "G2"), ME + ":replay_reuse",
+                       {"group": group}, exp, got, note="call %d of 3" % step)
+                break
+    r.sample({"sequence": "hash_to_G2/G1(bytearray msg, bytearray tag, sha256) x 3 on the same objects"})
+    return r
+
+
+def replay_reuse(a):
+    for step, exp, got in reuse_case(a["group"]):
+        if exp != got:
+            return {"call": step, "expected": exp, "observed": got}
+    return None
+
+
 def replay_pipe(a):
     bad = pipe_case(a["group"], _msgs()[a["mi"]], _tags()[a["ti"]], a["h"])
     return None if not bad else {"class": bad[0], "expected": bad[1], "observed": bad[2]}
@@ -305,6 +346,7 @@ def run(ctx):
         ch = cases[i * per:(i + 1) * per]
         if ch:
             tasks.append(("pipe", {"cases": ch, "sample": i == 0}))
+    tasks.append(("reuse", {}))
     ctx.bounds = {"map_to_curve": plan, "pipeline_cases_per_group": len(cases), "hashes": hashes}
     ctx.pmap(ME, tasks)
     # branch-coverage requirement is part of the evidence, not a verdict on the code
